@@ -156,6 +156,14 @@ class ListV:
 
 
 @dataclass
+class ClosureV:
+    """a nested function / lambda together with the frame it was defined in (read access to the enclosing variables)"""
+    node: Any                 # ast.FunctionDef | ast.Lambda
+    rel: str
+    frame: Dict[str, Any]
+
+
+@dataclass
 class GenV:
     """a generator object: its first iterable is evaluated when it is created, everything else when it is consumed, and it can be
     consumed once (a second iteration sees nothing)"""
@@ -431,6 +439,10 @@ class Interp:
         """Interprets function `name` of module `rel` on abstract arguments; returns every outcome
         (return / raise) with the state (path condition, effects) in which it happens."""
         fn = self.sources.func(rel, name)
+        return self.run_node(fn, rel, name, args, state, kwargs, None)
+
+    def run_node(self, fn: Any, rel: str, name: str, args: List[Any], state: Optional[State], kwargs: Optional[Dict[str, Any]],
+                 outer: Optional[Dict[str, Any]]) -> List[Outcome]:
         if state is None:
             # top-level request of a rule module: fresh budget
             self.total_steps += self.steps
@@ -448,7 +460,13 @@ class Interp:
                     if isinstance(v, MapV):
                         st.globals[key].name = key
                 env[k] = st.globals[key]
-        params = fn.args.args
+        if outer is not None:
+            env.update(outer)          # variables of the enclosing function, as they are now
+        params = fn.args.args + fn.args.kwonlyargs
+        if any(isinstance(n_, ast.Nonlocal) for n_ in ast.walk(fn)) or fn.args.vararg or fn.args.kwarg:
+            raise _Unmodelled(f"function {name} with nonlocal / *args / **kwargs at {core.loc(rel, fn)}")
+        kw_defaults = {a.arg: d for a, d in zip(fn.args.kwonlyargs, fn.args.kw_defaults) if d is not None}
+        n_pos = len(fn.args.args)
         defaults = fn.args.defaults
         nd = len(defaults)
         kwargs = kwargs or {}
@@ -469,7 +487,11 @@ class Interp:
         if depth > 12:
             raise Budget("call depth")
         outs: List[Outcome] = []
-        for s2, sig in self.exec_block(fn.body, st, rel):
+        if isinstance(fn, ast.Lambda):
+            body_outs = self.with_forks(lambda s_: [(s_, ("return", self.eval(fn.body, s_, rel), fn))], st)
+        else:
+            body_outs = self.exec_block(fn.body, st, rel)
+        for s2, sig in body_outs:
             if sig is None:
                 outs.append(Outcome("return", NONE, s2, fn))
             elif sig[0] == "return":
@@ -577,6 +599,9 @@ class Interp:
             return self.exec_for(st, state, rel)
         if isinstance(st, ast.Try):
             return self.exec_try(st, state, rel)
+        if isinstance(st, ast.FunctionDef) and not st.decorator_list:
+            state.env[st.name] = ClosureV(st, rel, state.env)
+            return [(state, None)]
         if isinstance(st, ast.Break):
             return [(state, ("break",))]
         if isinstance(st, ast.Continue):
@@ -1169,6 +1194,8 @@ class Interp:
         if isinstance(e, ast.GeneratorExp):
             return GenV(e, self.eval(e.generators[0].iter, state, rel), rel)
         if isinstance(e, ast.Lambda):
+            return ClosureV(e, rel, state.env)
+        if isinstance(e, ast.Lambda):
             return Unknown("lambda")
         return Unknown(f"expression {type(e).__name__}")
 
@@ -1734,6 +1761,25 @@ class Interp:
             kwargs[k.arg] = self.eval(k.value, state, rel)
         if isinstance(fn, FuncRef):
             return self.call_ref(fn, args, kwargs, state, e, rel)
+        if isinstance(fn, ClosureV):
+            if id(e) in state.call_memo:
+                v = state.call_memo.pop(id(e))
+                if isinstance(v, _RaiseMarker):
+                    raise _Raise(v.exc, state)
+                return v
+            nm_ = getattr(fn.node, "name", "<lambda>")
+            outer = {k: v for k, v in fn.frame.items()}
+            outs = self.run_node(fn.node, fn.rel, nm_, args, state, kwargs, outer)
+            if len(outs) == 1:
+                o = outs[0]
+                if o.state is not state:
+                    state.become(o.state)
+                if o.kind == "raise":
+                    raise _Raise(o.value, state)
+                return o.value
+            if not outs:
+                raise _Unmodelled(f"call of {nm_} has no outcome")
+            raise _Fork([(o.state, e, o.value if o.kind == "return" else _RaiseMarker(o.value)) for o in outs])
         return Unknown(f"call of {core.src(f)}")
 
     @staticmethod
